@@ -156,6 +156,11 @@ class Tr:
             if isinstance(f, ast.Name) and f.id == 'diagonal_pseudo_inverse' and 'diagonal_pseudo_inverse' in self.want \
                     and len(e.args) == 1 and not e.keywords:
                 return '(XPinvDiag %s)' % self.expr(e.args[0])
+            if self.is_call(e, 'np', 'sqrt', 1):
+                return '(XSqrt %s)' % self.expr(e.args[0])
+            if isinstance(f, ast.Name) and f.id == 'add_self_loops' and 'add_self_loops' in self.want and len(e.args) == 1 \
+                    and not e.keywords:
+                return '(XAddSelfLoops %s)' % self.expr(e.args[0])
             if self.is_call(e, 'np', 'outer', 2):
                 return '(XOuter %s %s)' % (self.expr(e.args[0]), self.expr(e.args[1]))
             for attr, node in (('mean', 'XMeanAxis0'), ('sum', 'XSumAxis0')):
@@ -295,6 +300,37 @@ class Tr:
                         raise TranslateError('parameter / argument capture in ' + ast.unparse(s))
                     inner = '(XLet %s (XVar %s) %s)' % (_cstr(p), _cstr(a), inner)
             return inner
+        if isinstance(s, ast.If) and isinstance(s.test, ast.Attribute) and isinstance(s.test.value, ast.Name) \
+                and s.test.value.id == 'self' and s.test.attr in getattr(self, 'flags', ()) and not s.orelse:
+            # if self.<boolean option>: <updates of one variable x>   ->   x = (XIfFlag "self.<option>" <x after the body> x)
+            body = self.strip(s.body)
+            tg = {self.assign_target(q) for q in body}
+            if len(tg) != 1 or None in tg:
+                raise TranslateError('an `if self.%s` block must update exactly one variable' % s.test.attr)
+            x = tg.pop()
+            inner = self.block(body, lambda: '(XVar %s)' % _cstr(x))
+            return '(XLet %s (XIfFlag %s %s (XVar %s)) %s)' % (_cstr(x), _cstr('self.' + s.test.attr), inner, _cstr(x), nxt())
+        if isinstance(s, ast.If) and getattr(self, 'str_choice', None) is not None:
+            # if self.<option> == 'a': A elif self.<option> == 'b': B ...  -> the branch of the variant being generated (none: skip)
+            attr, value = self.str_choice
+            chain, cur, ok = [], s, True
+            while True:
+                t = cur.test
+                if not (isinstance(t, ast.Compare) and len(t.ops) == 1 and isinstance(t.ops[0], ast.Eq) and ast.unparse(t.left) == 'self.' + attr
+                        and isinstance(t.comparators[0], ast.Constant) and isinstance(t.comparators[0].value, str)):
+                    ok = False
+                    break
+                chain.append((t.comparators[0].value, cur.body))
+                if len(cur.orelse) == 1 and isinstance(cur.orelse[0], ast.If):
+                    cur = cur.orelse[0]
+                    continue
+                if cur.orelse:
+                    ok = False
+                break
+            if ok:
+                self.str_values_seen = [v for v, _ in chain]
+                chosen = [b for v, b in chain if v == value]
+                return self.block(self.strip(chosen[0] if chosen else []) + rest, final)
         if isinstance(s, ast.If) and isinstance(s.test, ast.Compare) and len(s.test.ops) == 1:
             t = s.test
             # if X.ndim == 2: A else: B   -> the branch of the variant being generated
@@ -743,3 +779,55 @@ def gen_nplouvainembedding():
 
 
 FILES['NpLouvainEmbedding.v'] = gen_nplouvainembedding
+
+
+# ---------------------------------------------------------------------------------------------------------------------
+# gnn/layer.py: Convolution.forward, pre-activation embedding (C19)
+# ---------------------------------------------------------------------------------------------------------------------
+GREL = 'sknetwork/gnn/layer.py'
+LAYER_IMPORTS = {'diagonal_pseudo_inverse': 'sknetwork.linalg', 'add_self_loops': 'sknetwork.utils.check'}
+
+
+def gen_npconv():
+    tree = ast.parse(_src(GREL))
+    cls = [n for n in tree.body if isinstance(n, ast.ClassDef) and n.name == 'Convolution']
+    if len(cls) != 1:
+        raise TranslateError('Convolution not found')
+    fw = [m for m in cls[0].body if isinstance(m, ast.FunctionDef) and m.name == 'forward']
+    if len(fw) != 1 or [a.arg for a in fw[0].args.args] != ['self', 'adjacency', 'features']:
+        raise TranslateError('unexpected Convolution.forward')
+    body = Tr.strip(fw[0].body)
+    if ast.unparse(body[0]) != 'if not self.weights_initialized:\n    self._initialize_weights(features.shape[1])':
+        raise TranslateError('unexpected start of Convolution.forward')
+    # ... embedding statements ..., output = self.activation.output(embedding); self.embedding = embedding; self.output = output; return output
+    tail = [ast.unparse(x) for x in body[-4:]]
+    if tail != ['output = self.activation.output(embedding)', 'self.embedding = embedding', 'self.output = output', 'return output']:
+        raise TranslateError('unexpected end of Convolution.forward: %r' % tail)
+    core = body[1:-4]
+    # n_row, n_col = adjacency.shape  ->  two assignments
+    conv = []
+    for s_ in core:
+        if ast.unparse(s_) == 'n_row, n_col = adjacency.shape':
+            conv += ast.parse('n_row = adjacency.shape[0]\nn_col = adjacency.shape[1]').body
+        else:
+            conv.append(s_)
+    out = ['(* generated by harness/translators/npvec.py from %s; do not edit *)' % GREL,
+           'From SKN Require Import Base.Util Model.NpExpr Model.NpVec.',
+           'From Coq Require Import String.',
+           'Local Open Scope string_scope.', '']
+    seen = None
+    for norm in ('left', 'right', 'both', 'none'):
+        tr = Tr(tree, LAYER_IMPORTS)
+        tr.self_attrs = ('weight', 'bias')
+        tr.flags = ('self_embeddings', 'use_bias')
+        tr.str_choice = ('normalization', norm)
+        term = tr.block(conv, lambda: '(XVar "embedding")')
+        if getattr(tr, 'str_values_seen', None) != ['left', 'right', 'both']:
+            raise TranslateError('unexpected normalisation branches: %r' % getattr(tr, 'str_values_seen', None))
+        out.append('(* %s: Convolution.forward, value of `embedding` (pre-activation) for normalization = %r; self_embeddings and use_bias are read from the environment *)' % (GREL, norm))
+        out.append('Definition src_conv_embedding_%s : vexpr :=\n  %s.' % (norm, term))
+        out.append('')
+    return '\n'.join(out)
+
+
+FILES['NpConv.v'] = gen_npconv
